@@ -38,4 +38,7 @@ def run(chk, tier):
     chk.ob("R-ALLOC", "call-graph", cyc is None, "call graph of the scope is acyclic" if cyc is None else "recursion: %s" % (cyc,), key="acyclic")
     term.check_loops(chk, prog, fns, "data")
     term.check_seek_discipline(chk, prog, fns, interval.Engine(prog))
+    if tier == "thorough":
+        from nx import clippyx
+        clippyx.cross_check(chk, prog, fns, "data")
     chk.floor("functions in scope", len(fns), 90)
